@@ -820,3 +820,60 @@ def _verify_units(prop):
 
 unit("C05", "run.processor_values")(_new_processor_values)
 STANDIN = dict(globals().get("STANDIN", {}), **{r"run\.processor_values": ZERO_REPLAY})
+
+
+def _dims_order(u: Unit):
+    """C07.dims_order (imported late): the label of a dask run pairs the short dimension names with the run's value tuple by position."""
+    from . import C07 as _C07d
+    return _C07d.dims_order(u)
+
+
+unit("C05", "dims.order")(_dims_order)
+
+
+# ---- eval_range on expression text: the values run are EXACTLY the elements the expression evaluates to ---------------------------------
+RANGE_REPLAY = lambda w: {"code": """
+import numpy as np
+from pyxel.evaluator import eval_range
+VIOLATED, DETAIL = False, 'a numpy expression denotes exactly the elements it evaluates to'
+for text in ('numpy.linspace(1.0e-10, 2.0e-10, 5)', 'numpy.arange(0.1, 1.0, 0.1)', 'numpy.array([1e-12, 2.5e-11, 0.30000000000000004, 1e15 + 0.3])', 'numpy.geomspace(1e-15, 1e-9, 4)',
+             'numpy.arange(2, 8, 3)', 'numpy.linspace(-3e-11, 3e-11, 4)'):
+    want = eval(text, None, {'numpy': np})
+    got = eval_range(text)
+    if len(got) != len(want) or any(type(g) not in (float, int) or g != w_ for g, w_ in zip(got, want)):
+        VIOLATED, DETAIL = True, f'{text}: values to run {got}, the expression evaluates to {want.tolist()}'; break
+""", "expect": "eval_range(text) lists the elements of the evaluated array unchanged (float for float arrays, int for integer arrays)"}
+
+
+@unit("C05", "range.expression_values")
+def range_expression_values(u: Unit):
+    """eval_range on a numpy expression (eval is the boundary: an array of n symbolic elements, float64 or int64): the list returned holds
+    those n elements, each one UNCHANGED (as Python float / int) and in order -- every requested value is run as requested, however small."""
+    fi = u.fn("pyxel/evaluator.py::eval_range")
+    TEXT = "numpy.linspace(1.0e-10, 2.0e-10, 3)"
+    ELEM = z3.Function("expr_element", z3.IntSort(), z3.RealSort())
+    IEL = z3.Function("expr_int_element", z3.IntSort(), z3.IntSort())
+    for kind in ("float64", "int64"):
+        for n in (1, 3):
+            cfg = Cfg("real")
+
+            def np_eval(ex, f, args, kwargs, fr, kind=kind, n=n):
+                if not (isinstance(args[0], VStr) and is_conc(args[0].v) and args[0].v == TEXT):
+                    raise Unsupported(f"eval({args[0]!r})")
+                return ex.st.alloc(HArr((n,), VDtype(kind), (lambda ix: VFloat(ELEM(z_int(ix[0])))) if kind == "float64" else (lambda ix: VInt(IEL(z_int(ix[0]))))))
+            cfg.lib_overrides["builtins.eval"] = np_eval
+            cfg.lib_overrides["importlib.import_module"] = lambda ex, f, args, kwargs, fr: VLib(str(args[0].v))
+            tag = f"{kind},{n}"
+            ps = u.paths(fi, lambda ex: ([VStr(TEXT)], {}), cfg, label=f"eval_range[{tag}]")
+            for p in ps:
+                items = p.ex.try_list(p.value) if p.kind == "return" else None
+                if items is None:
+                    u.oblige(p, f"range.expression_values[{tag}].returns_list", False, {"exc": p.exc_name()}, RANGE_REPLAY)
+                    continue
+                ok = len(items) == n and all(isinstance(x, VFloat if kind == "float64" else VInt) for x in items)
+                goal = z3.And(*[(to_real(x) == ELEM(z3.IntVal(i))) if kind == "float64" else (z_int(x.v) == IEL(z3.IntVal(i))) for i, x in enumerate(items)]) if ok else z3.BoolVal(False)
+                u.oblige(p, f"range.expression_values[{tag}]", goal, {"n": n}, RANGE_REPLAY)
+            u.cover(f"range.expression_values.cover[{tag}]", ps, lambda p: p.kind == "return")
+
+
+STANDIN = dict(globals().get("STANDIN", {}), **{r"range\.expression_values": RANGE_REPLAY})
